@@ -124,6 +124,9 @@ func (w *world) monResponse(r addReq, res result) {
 // and whenever a later one is the root of a prefix of a ground-truth history, every earlier one is
 // the root of the corresponding shorter prefix of the SAME history
 func (w *world) monConsistent() {
+	if !w.dead {
+		mon("mon_watchdog", []string{"world", fmt.Sprint(len(w.evs))}, true, "")
+	}
 	w.st.mu.Lock()
 	defer w.st.mu.Unlock()
 	for _, o := range sortedKeys(w.recorded) {
